@@ -290,7 +290,11 @@ func (r *scopeRegistry) purgeIfRootClosed() {
 	for _, subscopeBucket := range r.subscopes {
 		subscopeBucket.mu.Lock()
 		for k, s := range subscopeBucket.s {
-			_ = s.Close()
+			if !s.root {
+				// n.b. The root is what is being closed (and holds its
+				//      report lock), see scope.Close().
+				_ = s.Close()
+			}
 			s.clearMetrics()
 			delete(subscopeBucket.s, k)
 		}
